@@ -192,26 +192,26 @@ theorem C05_cse (limit : Nat) (m : Model) (hv : validModel m = true) : Preserves
   · simp [cseModel]
 
 theorem preserves_mapInputs (f : List VId → List VId → List VId) (hf : KeepsFree f) (m : Model) :
-    Preserves (fun m => { graph := mapInputsG f m.graph, funcs := m.funcs }) m := by
+    Preserves (fun m => { graph := mapInputsTop f m.graph, funcs := m.funcs }) m := by
   obtain ⟨g, fs⟩ := m
   refine ⟨?_, ?_, ?_, ?_, ?_⟩
   · intro Val I xs
     simp only [denote]
-    exact congrFun (mapInputsG_sound I f hf g Env.empty) xs
+    exact congrFun (mapInputsTop_sound I f hf g Env.empty) xs
   · intro Val I k ρ xs; rfl
   · cases g with
-    | mk inputs outputs inits nodes => simp [mapInputsG, Graph.outputs]
+    | mk inputs outputs inits nodes => simp [mapInputsTop, Graph.outputs]
   · cases g with
     | mk inputs outputs inits nodes =>
-      simp only [mapInputsG, Graph.freeInputs, Graph.inputs, Graph.inits]
+      simp only [mapInputsTop, Graph.freeInputs, Graph.inputs, Graph.inits]
       exact hf inputs (inits.map Prod.fst)
   · rfl
 
-/-- **C05_rm_init_inputs** — RemoveInitializersFromInputsPass (every graph of the main nest). -/
+/-- **C05_rm_init_inputs** — RemoveInitializersFromInputsPass (main graph). -/
 theorem C05_rm_init_inputs (m : Model) : Preserves rmInitInputsModel m :=
   preserves_mapInputs removeInitsFromInputs keepsFree_remove m
 
-/-- **C05_add_init_inputs** — AddInitializersToInputsPass (every graph of the main nest): the
+/-- **C05_add_init_inputs** — AddInitializersToInputsPass (main graph): the
     initializer-backed inputs it appends are not inputs a caller has to supply. -/
 theorem C05_add_init_inputs (m : Model) : Preserves addInitInputsModel m :=
   preserves_mapInputs addInitsToInputs keepsFree_add m
